@@ -110,4 +110,29 @@ theorem materialize_self (st : St) (t : Dense) (h : t.isMaterializable = false) 
 -- non-vacuity
 example : expandCoord [false, true, false] [5, 7] = [5, 0, 7] := by decide
 
+/-- (after the repair of finding F27) a view of a lazily transposed tensor is flagged non-contiguous, hence every
+    whole-tensor operation on it (Materialize, Copy, Memset, arithmetic) goes through its iterator and never
+    reads its storage window as a block — for every slice list. -/
+theorem view_of_transposed_requires_iterator (t v : Dense) (sls : List (Option Sl)) (h : t.slice sls = .ok v)
+    (hold : t.old.isSome = true) (hns : isScalar v.ap.shape = false) (hlen : v.win.len ≠ 1) :
+    v.ap.o.nonContig = true ∧ v.requiresIterator = true := by
+  unfold Dense.slice at h
+  simp only [bind, Except.bind, pure, Except.pure] at h
+  split at h
+  · cases h
+  · rename_i r hr
+    obtain ⟨nap, s0, e0⟩ := r
+    simp only at h
+    split at h
+    · cases h
+    · split at h
+      · cases h
+      · rename_i m hm
+        injection h with h
+        subst h
+        simp only at hns hlen ⊢
+        by_cases hsc : isScalar nap.shape = true
+        · simp [hold, hsc] at hns
+        · simp [hold, hsc, Dense.requiresIterator, hlen]
+
 end TM.C04
